@@ -164,6 +164,11 @@ func CheckC10(e *Env) int {
 	// value expressions: the same expression listed in the injector's own package and in a set
 	// declared by another package must be accepted in both places and deliver the same value
 	runValueCases(e, rep, c13RelocationExprs(), "c10v")
+	// ... and the same expression text written in sets of two packages that give the names
+	// different meanings: which package declares the set decides what is wired
+	tp, tkeys, tpairs := c13TwinProgram("gtwin")
+	tres := RunPool(e, []*Program{tp}, PoolOpts{Execute: true, Name: "c10tw", BatchSize: 1})
+	judgeTwin(rep, tres[0], tkeys, tpairs)
 	if rep.Counters["variant_wiring_compared"] == 0 {
 		rep.Incon = append(rep.Incon, "no variant pair was compared")
 	}
